@@ -237,6 +237,11 @@ pub fn corpus(deep: bool) -> Vec<String> {
               "exists X$s X$i (X = X$s and X = X$i and p(X))", "exists X (X = X$i and exists X$i (X$i = 1 and q(X, X$i)))", "exists N (N = N$i + 1 and p(N)) and p(N$i)", "forall X$i X (X = X$i -> p(X)) -> p(X$i)"] {
         out.push(t.to_string());
     }
+    // orphaned, repeated and shadowed variables of different sorts
+    for t in ["exists X$i (p(X))", "exists X X$i (p(X$i))", "forall X$i X (p(X) -> q)", "exists X (exists X$i (p(X)))", "exists X$i (exists X (p(X$i)))", "exists X (forall X (p(X) -> q(X)))", "exists X (exists X (p(X)) and q(X))",
+              "forall X (exists X$i (p(X$i)) -> q(X))", "exists X$s X$i X (p(X))", "exists X (p(X)) and exists X$i (p(X$i))", "forall X X (p(X) -> q(X))", "exists X Y X (q(X, Y))", "exists X$i (forall X$i (p(X$i) -> q(X$i)) and p(X$i))"] {
+        out.push(t.to_string());
+    }
     // the three sorts side by side
     for t in ["exists X$i Y$s (Z = X$i and Z = Y$s and p(X$i))", "exists X$i Y$s (X$i = Z and Y$s = Z and p(X$i) and q(Y$s))", "exists Y$s X$i (Z = Y$s and X$i = Z and p(1))", "forall X (exists X$i Y$s (#inf = X$i and #inf = Y$s and p(X$i)) -> q(X))",
               "exists X$s (X$s = a and p(X$s))", "exists X$s (X$s = Y and p(X$s))", "exists X$s Y$s (X$s = Y$s and q(X$s, Y$s))", "forall X$s (p(X$s) -> exists N$i (q(N$i) and N$i < X$s))", "exists X (exists Y$s (X = Y$s) and p(X))",
